@@ -569,7 +569,7 @@ def run_cases(cases, wd, tag):
     core.write_ndjson(inp, cases)
     with open(inp) as fin, open(outp, "w") as fout:
         p = subprocess.run([SERVER["bin"]], stdin=fin, stdout=fout, stderr=subprocess.PIPE, text=True, timeout=3600,
-                           env=dict(os.environ, RUST_BACKTRACE="0"))
+                           env=core.coverage_env(dict(os.environ, RUST_BACKTRACE="0"), "route"))
     if p.returncode != 0:
         raise core.ToolError("harness route exited %s:\n%s" % (p.returncode, p.stderr[-4000:]))
     res = core.read_ndjson(outp)
